@@ -586,6 +586,17 @@ impl PortAllocator {
     }
 }
 
+/// Verification hook (area nettable): replace the ephemeral port range
+/// of this host's allocator (cursor restarts at the range start). Lets
+/// a harness reach wrap-around and exhaustion with a handful of binds.
+/// Meant to be called before the host has any socket.
+#[cfg(turmoil_verif)]
+impl super::Kernel {
+    pub(crate) fn verif_table_set_ephemeral_range(&mut self, range: RangeInclusive<u16>) {
+        self.sockets.ports = PortAllocator::new(range);
+    }
+}
+
 #[cfg(test)]
 mod tests {
     use super::*;
